@@ -152,6 +152,19 @@ def body(ck, F, cfg):
     ck.require(okc, "R06.7", "verifier:clone-only-r", f"operations on cloned transcripts must be exactly the squeeze of `r`, forked after the last absorbed message: forks={len(side['forks'])} clone_ops={side['clone_ops']} main_after={side['main_ops_after_fork']}")
     pside = clone_side_table(P["I"])
     ck.require(not pside["forks"] and not pside["clone_ops"], "R06.7", "prover:no-clone", f"the prover must not operate on transcript clones: {pside['clone_ops']}")
+    # R06.8 engine cross-check: operation sequence per function from MIR (reverse post-order) == from HIR (source order)
+    from .. import mirsched as MS
+
+    xfns = [H.P_VER + "verification_scalars", H.P_PRV + "prove_and_return_transcript", H.P_IPP + "verification_scalars", H.P_IPP + "create", H.P_VER + "create_randomized_constraints", H.P_PRV + "create_randomized_constraints", H.P_VER + "new", H.P_PRV + "new", H.P_VER + "commit", H.P_PRV + "commit"]
+    xfns += [p_ for p_ in F.fns if p_.startswith("<merlin::Transcript as transcript::TranscriptProtocol<G>>::")]
+    nops = 0
+    for p_ in xfns:
+        a_, b_ = MS.mir_schedule(F, p_), MS.hir_schedule(F, p_)
+        nops += len(a_)
+        branching = p_.endswith(("create_randomized_constraints", "InnerProductProof::<G>::create"))
+        same = (sorted(map(str, a_)) == sorted(map(str, b_))) if branching else (a_ == b_)
+        ck.require(same, "R06.8", f"mir-vs-hir:{p_.split('::')[-1] if 'TranscriptProtocol' in p_ else p_.split('::', 2)[-1][:60]}", f"transcript operations of {p_} differ between the MIR derivation {a_[:8]} and the HIR derivation {b_[:8]}", nontrivial=len(a_) > 1)
+    ck.floor("cross-checked transcript call sites", nops, 70)
     ck.extra["distinct_symbols"] = {"reference": len(S.symbols_of(ref)), "verifier": len(S.symbols_of(rv)), "prover": len(S.symbols_of(rp))}
     ck.floor("distinct schedule symbols (verifier)", len(S.symbols_of(rv)), 29)
     ck.floor("distinct schedule symbols (prover)", len(S.symbols_of(rp)), 29)
@@ -169,7 +182,7 @@ def run(tier):
         "payload roles are found by value (the prover's payload is the proof field the same term reaches). Both role languages must equal "
         "the reference schedule (DFA product), every challenge's must-precede set must contain all earlier messages, every proof field is "
         "absorbed, payloads are full uncompressed encodings, challenge derivation is one ChaCha20 draw from 32 squeezed bytes.",
-        rule_text="R06.1 language equivalence (NFA->DFA->product); R06.2 must-precede dataflow on the DFA; R06.3 coverage from type definitions; R06.4/5 labels and encodings; R06.6 challenge derivation; R06.7 returned transcripts, clone side table",
+        rule_text="R06.1 language equivalence (NFA->DFA->product); R06.2 must-precede dataflow on the DFA; R06.3 coverage from type definitions; R06.4/5 labels and encodings; R06.6 challenge derivation; R06.7 returned transcripts, clone side table; R06.8 MIR/HIR cross-check of the operation sequences",
         not_decided=["Merlin/STROBE internals", "that user callbacks themselves follow a discipline (they are USER holes at the same place in both roles)"],
         assumptions=["Merlin's append/challenge are a sound duplex construction", "user code is the same program on both sides"],
     )
